@@ -351,7 +351,9 @@ void TaskScheduler::SplitAndAddTask( uint32_t threadNum_, SubTaskSet subTask_, u
         {
 
             // alter range to run the appropriate fraction
-            if( taskToAdd.pTask->m_RangeToRun < rangeToSplit_ )
+            // (compare with the size of THIS partition: the last one can be shorter than rangeToSplit_,
+            //  and growing it to m_RangeToRun would run indices beyond the set and never terminate)
+            if( taskToAdd.pTask->m_RangeToRun < taskToAdd.partition.end - taskToAdd.partition.start )
             {
                 taskToAdd.partition.end = taskToAdd.partition.start + taskToAdd.pTask->m_RangeToRun;
                 subTask_.partition.start = taskToAdd.partition.end;
